@@ -56,7 +56,7 @@ func Handle(c *core.Check, st core.State) {
 	if len(items) > 0 {
 		var uval cty.Value
 		c.Count("evaluations", 1)
-		if rec, p := core.Guard(func() { uval, _ = hcldec.Decode(unknownBlocks{f.Body}, spec, dec.Ctx()) }); p {
+		if rec, p := core.Guard(func() { uval, _ = hcldec.Decode(unknownBlocks{f.Body, ""}, spec, dec.Ctx()) }); p {
 			c.Violation("panic/unknown-body/"+culprit(sn), fmt.Sprintf("%s: Decode with unknown block bodies panicked: %v", desc, rec), vec)
 			return
 		}
@@ -69,6 +69,66 @@ func Handle(c *core.Check, st core.State) {
 			c.Violation(usig,
 				fmt.Sprintf("%s: with unknown block bodies Decode returned %s of type %s, implied type is %s", desc, e1.Describe(uval), uval.Type().FriendlyName(), ity.FriendlyName()), vec)
 			return
+		}
+	}
+	// ... and with the bodies of ONE block type unknown (a dynamic block of that type over an unknown
+	// for_each next to static blocks of other types): every child of a top-level object / tuple
+	// specification that does not read blocks of that type is exactly what it is without unknown bodies
+	if (sn.K == "object" || sn.K == "tuple") && len(items) > 0 {
+		types := map[string]bool{}
+		for _, b := range f.Body.(*hclsyntax.Body).Blocks {
+			types[b.Type] = true
+		}
+		var full cty.Value
+		var fd hcl.Diagnostics
+		if len(types) > 0 {
+			if _, p := core.Guard(func() { full, fd = hcldec.Decode(f.Body, spec, dec.Ctx()) }); p {
+				full = cty.NilVal
+			}
+		}
+		if full != cty.NilVal && !fd.HasErrors() && full.IsKnown() && !full.IsNull() {
+			for typ := range types {
+				var uval cty.Value
+				var ud hcl.Diagnostics
+				c.Count("evaluations", 1)
+				if rec, p := core.Guard(func() { uval, ud = hcldec.Decode(unknownBlocks{f.Body, typ}, spec, dec.Ctx()) }); p {
+					c.Violation("panic/unknown-body/"+culprit(sn), fmt.Sprintf("%s: Decode with unknown %s block bodies panicked: %v", desc, typ, rec), vec)
+					return
+				}
+				if ud.HasErrors() {
+					continue
+				}
+				for i, child := range sn.Sub {
+					reads := false
+					if _, p := core.Guard(func() {
+						for _, bs := range hcldec.ImpliedSchema(child.Build()).Blocks {
+							reads = reads || bs.Type == typ
+						}
+					}); p {
+						reads = true
+					}
+					if reads {
+						continue
+					}
+					var got, want cty.Value
+					ok := true
+					if _, p := core.Guard(func() {
+						if sn.K == "object" {
+							got, want = uval.GetAttr(sn.Names[i]), full.GetAttr(sn.Names[i])
+						} else {
+							got, want = uval.Index(cty.NumberIntVal(int64(i))), full.Index(cty.NumberIntVal(int64(i)))
+						}
+					}); p {
+						ok = false
+					}
+					if !ok || !got.RawEquals(want) {
+						c.Violation("unknown-body-spreads/"+child.K, fmt.Sprintf("%s: with only the bodies of the %q blocks unknown, the part decoded by child %d (%s, which reads no %q block) is %s; without unknown bodies it is %s",
+							desc, typ, i, child.K, typ, e1.Describe(got), e1.Describe(want)), vec)
+						return
+					}
+					c.Count("unknown_one_type_children_checked", 1)
+				}
+			}
 		}
 	}
 	for _, partial := range []bool{false, true} {
@@ -282,13 +342,16 @@ func valueDiff(got, want cty.Value) string {
 
 // unknownBlocks wraps a body so that every block it returns has a body that implements
 // hcldec.UnknownBody with Unknown() = true (and otherwise behaves like the original).
-type unknownBlocks struct{ hcl.Body }
+type unknownBlocks struct {
+	hcl.Body
+	only string // "" = the bodies of all blocks, otherwise only blocks of this type
+}
 
 type unknownBody struct{ hcl.Body }
 
 func (unknownBody) Unknown() bool { return true }
 
-func wrapBlocks(c *hcl.BodyContent) *hcl.BodyContent {
+func wrapBlocks(c *hcl.BodyContent, only string) *hcl.BodyContent {
 	if c == nil {
 		return nil
 	}
@@ -296,7 +359,9 @@ func wrapBlocks(c *hcl.BodyContent) *hcl.BodyContent {
 	out.Blocks = nil
 	for _, b := range c.Blocks {
 		nb := *b
-		nb.Body = unknownBody{b.Body}
+		if only == "" || b.Type == only {
+			nb.Body = unknownBody{b.Body}
+		}
 		out.Blocks = append(out.Blocks, &nb)
 	}
 	return &out
@@ -304,12 +369,12 @@ func wrapBlocks(c *hcl.BodyContent) *hcl.BodyContent {
 
 func (u unknownBlocks) Content(schema *hcl.BodySchema) (*hcl.BodyContent, hcl.Diagnostics) {
 	c, d := u.Body.Content(schema)
-	return wrapBlocks(c), d
+	return wrapBlocks(c, u.only), d
 }
 
 func (u unknownBlocks) PartialContent(schema *hcl.BodySchema) (*hcl.BodyContent, hcl.Body, hcl.Diagnostics) {
 	c, rem, d := u.Body.PartialContent(schema)
-	return wrapBlocks(c), unknownBlocks{rem}, d
+	return wrapBlocks(c, u.only), unknownBlocks{rem, u.only}, d
 }
 
 // unifiable: for a top-level block list / set spec, decode every matching block on its own with
